@@ -351,6 +351,9 @@ def replay(r):
     if r["judge"] == "judge_list":
         import xz_list
         judge = xz_list.judge_list
+    elif r["judge"] == "judge_flush":
+        import xz_flush
+        judge = xz_flush.judge_flush
     elif r["judge"] == "judge_mem":
         import xz_mem
         judge = xz_mem.judge_mem
